@@ -18,7 +18,8 @@ from .c03_pit import _outcome_label, _verdict
 
 PROPERTY_ID = 'C06'
 RULE = ('(a) framing: sequences of 0..6 TLV packets (types in 1/3/5-byte form, lengths in {0,1,252,253,65535,65536,<=70000}) fed to a '
-        'concrete StreamFace through a real asyncio.StreamReader on the virtual loop, cut into chunks at drawn positions, plus EVERY '
+        'concrete StreamFace through a real asyncio.StreamReader on the virtual loop (type / length numbers in their shortest or in a wider '
+        'form), cut into chunks at drawn positions, plus EVERY '
         'single cut position and every (c, c+1) pair of streams <= 600 B, optionally ending in a truncated packet then EOF, the EOF fed either after the loop ran or in the SAME loop turn as the last '
         'bytes; oracle: '
         'delivered == packets, once, in order, byte-exact, right type; run() returns after EOF, nothing partial delivered. '
@@ -50,7 +51,7 @@ def run_two_faces(case):
     r = Result()
     streams = []
     for pk in (case['a'], case['b']):
-        pkts = [T.enc_num(t) + T.enc_num(n) + bytes((f + i) & 0xFF for i in range(n)) for t, n, f in pk]
+        pkts = [_pkt_bytes(p) for p in pk]
         streams.append(pkts)
     vl = VLoop()
     try:
@@ -110,9 +111,25 @@ def run_two_faces(case):
     return r
 
 
+def _num(v, widen):
+    """VAR-NUMBER of v in its shortest form, or `widen` forms wider (a sender may write 28 as FD 00 1C: the face hands over the
+    bytes it received, whatever their form)"""
+    forms = [f for f in (1, 3, 5, 9) if f >= len(T.enc_num(v))]
+    size = forms[min(widen, len(forms) - 1)]
+    if size == 1:
+        return bytes([v])
+    return bytes([{3: 0xFD, 5: 0xFE, 9: 0xFF}[size]]) + v.to_bytes(size - 1, 'big')
+
+
+def _pkt_bytes(p):
+    t, n, f = p[:3]
+    w = p[3] if len(p) > 3 else 0
+    return _num(t, w & 3) + _num(n, (w >> 2) & 3) + bytes((f + i) & 0xFF for i in range(n))
+
+
 def run_framing(case):
     r = Result()
-    pkts = [T.enc_num(t) + T.enc_num(n) + bytes((f + i) & 0xFF for i in range(n)) for t, n, f in case['pkts']]
+    pkts = [_pkt_bytes(p) for p in case['pkts']]
     stream = b''.join(pkts)
     tail = bytes.fromhex(case.get('tail', ''))
     full = stream + tail
@@ -190,14 +207,15 @@ def run_framing(case):
         if any(s < c < e for s, e in spans):
             inside = True
     r.key = ('framing', len(pkts), tuple(sorted({(e - s) for s, e in spans})), bool(tail), min(len(cuts), 5)) if inside else None
-    r.classes = ('framing', 'cut-in-TL' if inside else 'no-cut-in-TL', f'pkts:{len(pkts)}', 'tail' if tail else 'clean-eof') + (('eof-same-turn',) if case.get('eof_now') else ())
+    r.classes = ('framing', 'cut-in-TL' if inside else 'no-cut-in-TL', f'pkts:{len(pkts)}', 'tail' if tail else 'clean-eof') + (('eof-same-turn',) if case.get('eof_now') else ()) + \
+        (('non-minimal-TL',) if any(len(p) > 3 and p[3] for p in case['pkts']) else ())
     return r
 
 
 _PKT = st.tuples(st.sampled_from([5, 6, 100, 252, 253, 800, 65535, 65536, 0xFFFFFFFF]),
                  st.one_of(st.sampled_from([0, 1, 2, 252, 253, 254]), st.integers(0, 40), st.integers(0, 300),
                            st.sampled_from([65535, 65536, 70000])),
-                 st.integers(0, 255)).map(list)
+                 st.integers(0, 255), st.sampled_from([0, 0, 0, 1, 4, 5, 8, 2, 15])).map(list)
 
 
 @st.composite
@@ -205,7 +223,7 @@ def _framing_case(draw):
     pkts = draw(st.lists(_PKT, min_size=0, max_size=6))
     big = sum(1 for p in pkts if p[1] > 1000)
     if big > 1:
-        pkts = [p if p[1] <= 1000 else [p[0], 253, p[2]] for p in pkts[:-1]] + pkts[-1:]
+        pkts = [p if p[1] <= 1000 else [p[0], 253] + p[2:] for p in pkts[:-1]] + pkts[-1:]
     tail = b''
     if draw(st.integers(0, 2)) == 0:
         t = draw(_PKT)
@@ -217,7 +235,7 @@ def _framing_case(draw):
     for p in pkts:
         if draw(st.booleans()):
             cuts.append(off + draw(st.integers(1, 5)))
-        off += len(T.enc_num(p[0])) + len(T.enc_num(p[1])) + p[1]
+        off += len(_pkt_bytes(p))
     return {'pkts': pkts, 'tail': tail.hex(), 'cuts': cuts, 'eof_now': draw(st.integers(0, 3)) == 0}
 
 
